@@ -103,20 +103,21 @@ Proof. exact adj_elem_spec. Qed.
 
 (* ---------------------------------------------------------------- n-hop *)
 (* reach A n i j : a path i -> p1 -> ... -> j along edges of A with 1..n steps *)
-Theorem C13_n_hop_reach : forall m nodal n o A H,
+Theorem C13_n_hop_reach : forall m nodal n o zd A H,
   adjacency m nodal (if nodal then o else false) = Some A ->
-  n_hop m nodal n true o = Some H ->
+  n_hop m nodal n true o zd = Some H ->
   znr H = bnr A /\ znc H = bnr A /\
   forall i j, i < bnr A -> j < bnr A ->
     (zentry H i j = 1%Z <-> reach A n i j) /\ (zentry H i j = 0%Z <-> ~ reach A n i j).
 Proof. exact n_hop_self_loop_spec. Qed.
 
-(* include_self_loop=False: off the diagonal reachability; on the diagonal 0
-   for every vertex that has an edge to itself (every node that belongs to an
-   element, every element with a node) — and -1 for an isolated vertex *)
+(* include_self_loop=False as the unchanged tree computes it (`- eye`, zd =
+   false): off the diagonal reachability; on the diagonal 0 for every vertex
+   that has an edge to itself (every node that belongs to an element, every
+   element with a node) — and -1 for an isolated vertex *)
 Theorem C13_n_hop_no_self_loop : forall m nodal n o A H,
   adjacency m nodal (if nodal then o else false) = Some A ->
-  n_hop m nodal n false o = Some H ->
+  n_hop m nodal n false o false = Some H ->
   znr H = bnr A /\ znc H = bnr A /\
   (forall i j, i < bnr A -> j < bnr A -> i <> j ->
      (zentry H i j = 1%Z <-> reach A n i j) /\ (zentry H i j = 0%Z <-> ~ reach A n i j)) /\
@@ -127,12 +128,24 @@ Proof. exact n_hop_no_self_loop_spec. Qed.
 (* the full-strength statement "the matrix without self loops is 0/1-valued
    reachability" is FALSE for the code: a node that belongs to no element gets
    -1 on the diagonal (replayed on the implementation by the harness; finding) *)
+(* ... and in the repaired form (diagonal removed, zd = true): 0/1-valued
+   reachability off the diagonal, 0 on it — the full-strength statement, for
+   every mesh *)
+Theorem C13_n_hop_no_self_loop_repaired : forall m nodal n o A H,
+  adjacency m nodal (if nodal then o else false) = Some A ->
+  n_hop m nodal n false o true = Some H ->
+  znr H = bnr A /\ znc H = bnr A /\
+  (forall i j, i < bnr A -> j < bnr A -> i <> j ->
+     (zentry H i j = 1%Z <-> reach A n i j) /\ (zentry H i j = 0%Z <-> ~ reach A n i j)) /\
+  (forall i, i < bnr A -> zentry H i i = 0%Z).
+Proof. exact n_hop_zero_diag_spec. Qed.
+
 Definition mesh_isolated : mesh :=
   mkmesh [10; 5; 7; 99]%Z [("tri", [(30, [10; 5; 7])])]%Z%string.
 Theorem C13_n_hop_01_valued_refuted :
-  exists m H i, ids_ok m = true /\ n_hop m true 2 false false = Some H /\ i < znr H /\
+  exists m H i, ids_ok m = true /\ n_hop m true 2 false false false = Some H /\ i < znr H /\
                 zentry H i i = (-1)%Z.
-Proof. exists mesh_isolated, (match n_hop mesh_isolated true 2 false false with Some H => H | None => zmk 0 0 (fun _ _ => 0%Z) end), 3. vm_compute. repeat split; reflexivity. Qed.
+Proof. exists mesh_isolated, (match n_hop mesh_isolated true 2 false false false with Some H => H | None => zmk 0 0 (fun _ _ => 0%Z) end), 3. vm_compute. repeat split; reflexivity. Qed.
 
 (* ------------------------------------------------------------ Laplacian *)
 Theorem C13_laplacian_spec : forall m nodal o A L,
@@ -145,8 +158,8 @@ Proof. exact laplacian_spec. Qed.
 
 (* -------------------------------------------------------- edge gradient *)
 (* rows <-> undirected edges r < c, bijectively; row = +1 at r, -1 at c *)
-Theorem C13_edge_gradient_spec : forall m nodal o A G,
-  adjacency m nodal o = Some A -> edge_gradient m nodal o = Some G ->
+Theorem C13_edge_gradient_spec : forall m nodal o tot A G,
+  adjacency m nodal o = Some A -> edge_gradient m nodal o tot = Some G ->
   znr G = length (upper_edges A) /\ znc G = bnr A /\
   (forall k, k < znr G ->
      exists r c, nth_error (upper_edges A) k = Some (r, c) /\ r < c /\ entry A r c = true /\
@@ -157,26 +170,33 @@ Theorem C13_edge_gradient_spec : forall m nodal o A G,
        forall k', nth_error (upper_edges A) k' = Some (r, c) -> k' = k).
 Proof. exact edge_gradient_spec. Qed.
 
-(* it is undefined (the code raises) exactly on graphs without an edge *)
+(* on the unchanged tree (tot = false) it is undefined (the code raises) exactly
+   on graphs without an edge; the repaired form (tot = true) is total *)
 Theorem C13_edge_gradient_undefined : forall m nodal o A,
   adjacency m nodal o = Some A ->
-  (edge_gradient m nodal o = None <-> forall r c, entry A r c = true -> ~ r < c).
+  (edge_gradient m nodal o false = None <-> forall r c, entry A r c = true -> ~ r < c).
 Proof. exact edge_gradient_none. Qed.
+Theorem C13_edge_gradient_repaired_total : forall m nodal o A,
+  adjacency m nodal o = Some A -> edge_gradient m nodal o true = Some (edge_gradient_of A).
+Proof. exact edge_gradient_total. Qed.
 
 (* ------------------------------------------------------------------ e2v *)
 (* columns <-> the listed directed edges, bijectively (NoDup); column k is the
    indicator of the source vertex.  Without self loops the listed pairs are
-   the edges r <> c — plus (r, r) for every isolated vertex r (finding) *)
-Theorem C13_e2v_spec : forall m nodal sl A E,
-  adjacency m nodal false = Some A -> e2v m nodal sl = Some E ->
-  znr E = bnr A /\ znc E = length (e2v_edges A sl) /\
-  NoDup (e2v_edges A sl) /\
+   the edges r <> c (st = true, repaired form: exactly those, for every mesh)
+   — on the unchanged tree (st = false) plus (r, r) for every isolated vertex
+   r (finding) *)
+Theorem C13_e2v_spec : forall m nodal sl st A E,
+  adjacency m nodal false = Some A -> e2v m nodal sl st = Some E ->
+  znr E = bnr A /\ znc E = length (e2v_edges A sl st) /\
+  NoDup (e2v_edges A sl st) /\
   (forall k, k < znc E ->
-     exists r c, nth_error (e2v_edges A sl) k = Some (r, c) /\
+     exists r c, nth_error (e2v_edges A sl st) k = Some (r, c) /\
        forall v, v < bnr A -> zentry E v k = if Nat.eqb v r then 1%Z else 0%Z) /\
-  (forall r c, In (r, c) (e2v_edges A sl) <->
+  (forall r c, In (r, c) (e2v_edges A sl st) <->
      r < bnr A /\ c < bnr A /\
      if sl then entry A r c = true
+     else if st then r <> c /\ entry A r c = true
      else (r <> c /\ entry A r c = true) \/ (r = c /\ entry A r r = false)).
 Proof. exact e2v_spec. Qed.
 
@@ -193,8 +213,9 @@ Example C13_nonvacuous :
   option_map bcoo (incidence mesh_ex false) =
     Some [(0,0); (0,3); (1,0); (1,3); (2,1); (2,3); (3,1); (3,3); (4,1); (5,1); (5,2);
           (6,0); (6,2); (7,2)] /\
-  (exists G, edge_gradient mesh_ex false false = Some G /\ znr G = 4) /\
-  (exists E, e2v mesh_ex true false = Some E /\ znc E = 33).
+  (exists G, edge_gradient mesh_ex false false false = Some G /\ znr G = 4) /\
+  (exists E, e2v mesh_ex true false false = Some E /\ znc E = 33) /\
+  (exists E, e2v mesh_ex true false true = Some E /\ znc E = 32).
 Proof. vm_compute. repeat split; try reflexivity; eexists; split; reflexivity. Qed.
 
 Definition mesh_ex2 : mesh :=
